@@ -153,8 +153,9 @@ def regenerate_hintsgen() -> tuple[bool, str]:
     return True, ""
 
 
-GEN_PARTS = {"C02": ("trig", "TrigGen"), "C03": ("fetch", "FetchGen"), "C12": ("conn", "ConnGen"), "C16": ("for", "ForGen"), "C15": ("wf", "WfGen")}
-GEN_TOOL = {"for": ("py2gallina_for.py", "pyiron_workflow/nodes/for_loop.py"), "wf": ("py2gallina_wf.py", "pyiron_workflow/workflow.py")}     # default: py2gallina_chan.py on channels.py
+GEN_PARTS = {"C02": ("trig", "TrigGen"), "C03": ("fetch", "FetchGen"), "C12": ("conn", "ConnGen"), "C16": ("for", "ForGen"), "C15": ("wf", "WfGen"), "C18": ("inj", "InjGen")}
+GEN_TOOL = {"for": ("py2gallina_for.py", "pyiron_workflow/nodes/for_loop.py"), "wf": ("py2gallina_wf.py", "pyiron_workflow/workflow.py"),
+            "inj": ("py2gallina_inj.py", "pyiron_workflow/mixin/injection.py")}     # default: py2gallina_chan.py on channels.py
 
 
 def generated_tie(prop: str) -> dict:
